@@ -49,6 +49,7 @@ func main() {
 	shards := flag.Int("shards", 0, "number of shard processes (default: cores)")
 	cases := flag.Int("cases", 0, "override cases per shard")
 	secs := flag.Int("secs", 0, "override wall-clock budget in seconds")
+	census := flag.Bool("census", false, "triage aid: count every discrepancy signature, report nothing as violation")
 	if len(os.Args) < 2 {
 		fmt.Fprintln(os.Stderr, "usage: simcheck <property> [flags]")
 		os.Exit(2)
@@ -76,7 +77,7 @@ func main() {
 	}
 
 	if *shard >= 0 {
-		runShard(p, *tier, *seedF, *shard, nCases, nSecs, *statsOut)
+		runShard(p, *tier, *seedF, *shard, nCases, nSecs, *statsOut, *census)
 		return
 	}
 
@@ -128,7 +129,7 @@ func main() {
 		go func(i int) {
 			defer wg.Done()
 			cmd := exec.Command(self, id, "-tier", *tier, "-seed", strconv.FormatUint(*seedF, 10), "-shard", strconv.Itoa(i),
-				"-stats-out", filepath.Join(tmp, fmt.Sprintf("s%d.json", i)), "-cases", strconv.Itoa(nCases), "-secs", strconv.Itoa(nSecs))
+				"-stats-out", filepath.Join(tmp, fmt.Sprintf("s%d.json", i)), "-cases", strconv.Itoa(nCases), "-secs", strconv.Itoa(nSecs), "-census="+strconv.FormatBool(*census))
 			cmd.Env = append(os.Environ(), "VERIF_BINS="+bins.Dir, "VERIF_DIR="+sim.VerifDir())
 			cmd.Stderr = os.Stderr
 			shardErr[i] = cmd.Run()
@@ -178,6 +179,19 @@ func main() {
 		fmt.Printf("VIOLATION property=%s replay=%s\n", id, path)
 	}
 	wall := time.Since(start).Seconds()
+	if *census {
+		var ks []string
+		for k := range total.Counters {
+			if strings.HasPrefix(k, "sig:") {
+				ks = append(ks, k)
+			}
+		}
+		sort.Strings(ks)
+		for _, k := range ks {
+			fmt.Printf("census %6d  %s\n", total.Counters[k], strings.TrimPrefix(k, "sig:"))
+		}
+		return
+	}
 	writeEvidence(p, id, *tier, *seedF, n, total, bins, wall, nviol)
 	fmt.Printf("simcheck %s tier=%s seed=%d: cases=%d runs=%d nontrivial=%d schedules=%d faults_fired=%d selftest=%d/%d fidelity=%d/%d wall=%.1fs\n",
 		id, *tier, *seedF, total.Cases, total.Runs, len(total.Nontrivial), len(total.Schedules), sum(total.FaultsFired),
@@ -203,7 +217,7 @@ func main() {
 	}
 }
 
-func runShard(p sim.Property, tier string, seed uint64, shard, nCases, nSecs int, out string) {
+func runShard(p sim.Property, tier string, seed uint64, shard, nCases, nSecs int, out string, census bool) {
 	_ = flag.Set("rapid.checks", strconv.Itoa(nCases))
 	_ = flag.Set("rapid.seed", strconv.FormatUint(seed*64+uint64(shard)+1, 10))
 	_ = flag.Set("rapid.nofailfile", "true")
@@ -218,7 +232,7 @@ func runShard(p sim.Property, tier string, seed uint64, shard, nCases, nSecs int
 		os.Exit(2)
 	}
 	env := &sim.Env{Bins: bins, Tier: tier, Seed: seed, Shard: shard, Deadline: time.Now().Add(time.Duration(nSecs) * time.Second),
-		Known: sim.LoadKnown(), Stats: sim.NewStats(), Budget: nCases}
+		Known: sim.LoadKnown(), Stats: sim.NewStats(), Budget: nCases, Census: census}
 	if pf := os.Getenv("VERIF_CPUPROFILE"); pf != "" {
 		f, _ := os.Create(pf)
 		_ = pprof.StartCPUProfile(f)
